@@ -1,0 +1,10 @@
+//go:build verif
+
+// Contracts for package lib, read by the verifier in /verif (govc). Comment-only: this file
+// declares nothing and is compiled only with -tags verif.
+package lib
+
+//@ func Trace
+//@   inline
+//@ func Recover
+//@   inline
